@@ -90,6 +90,30 @@ func main() {
 		}
 	}
 
+	// documentation matrix: every native type x every documented source Go type x every documented target Go type
+	// (value target and pointer target alternately); plus pre-epoch instants with sub-day parts
+	for rep := 0; rep < S; rep++ {
+		for _, id := range mv.NativeIDs {
+			t := mv.Native(gocql.Type(id))
+			for _, v := range mv.DocSources(r, id) {
+				var ts []*mv.GTy
+				for j, g := range mv.DocTargets(id) {
+					if (j+rep)%3 == 2 {
+						g = mv.TPtr(g)
+					}
+					ts = append(ts, g)
+				}
+				rn.RoundTrip("rt-doc-matrix", pvOf(), t, v, ts)
+			}
+		}
+		for i := 0; i < 12; i++ {
+			v := mv.PreEpochTime(r)
+			rn.RoundTrip("rt-pre-epoch", pvOf(), mv.Native(gocql.TypeTimestamp), v, []*mv.GTy{mv.TK("time"), mv.TInt(mv.I64, false)})
+			rn.RoundTrip("rt-pre-epoch", pvOf(), mv.Native(gocql.TypeDate), v, []*mv.GTy{mv.TK("time"), mv.TK("str")})
+			rn.RoundTrip("rt-pre-epoch", pvOf(), &mv.Ty{K: "list", E: mv.Native(gocql.TypeDate)}, mv.VSlice(v.T, []*mv.Val{v}), []*mv.GTy{mv.TSlice(mv.TK("time"))})
+		}
+	}
+
 	// 2. native columns
 	for i := 0; i < 420*S; i++ {
 		id := mv.NativeIDs[r.Intn(len(mv.NativeIDs))]
@@ -157,5 +181,6 @@ func main() {
 	for k, n := range rn.Stat {
 		o.Extra[k] = n
 	}
+	o.Extra["coverage_matrix"] = rn.Matrix
 	o.Finish("From GocqlV Require Import Lib.Base C12.Model C12.Spec C12.Corr C02.Corr.", "C02.Corr.case", "C02.Corr.run")
 }
